@@ -1,6 +1,7 @@
 #ifndef VERIF_SHIM_H
 #define VERIF_SHIM_H
 #include <stdarg.h>
+extern int shim_inj_view;
 extern int shim_inj, shim_fault_n, shim_fault_class, shim_fault_hit, shim_trace_on, shim_trace_len;
 extern char shim_fault_where[48];
 extern char shim_trace[8192];
